@@ -8,6 +8,7 @@ repeatedly; assemble_code() called repeatedly on one UtilContext), plain
 repetition.  Oracle: equality with R0 on the artefact the property names.
 """
 import copy
+import re
 import struct
 
 from vlib.core import *
@@ -15,6 +16,7 @@ from vlib.framework import Engine, RunResult
 from vlib import progs, decoders
 
 TYPES = ["hex", "srec", "elf", "bin", "wdc", "uf2", "amiga", "macho"]
+NUM_RE = re.compile(r"(?<![\w.$])(0x[0-9a-fA-F]+|\d+)\b")
 DIMS = ["clock", "heap", "stack", "chunk", "flags", "name", "type", "history-main", "history-api", "repeat", "heap+stack+clock", "build", "flags+name"]
 
 
@@ -26,7 +28,7 @@ class C13(Engine):
     prop = "C13"
     title = "assembly is a deterministic function of the source alone"
     quick_budget = 45
-    quick_runs = 9000
+    quick_runs = 13000
     thorough_budget = 900
     variants = ("small",)
     rule = ("run i = valid program P (corpus instructions of 45 CPUs or data directives for the other 23, with macros/.if/.repeat/"
@@ -35,14 +37,74 @@ class C13(Engine):
             "(-l -q -dump_symbols -dump_macros), output name/directory/extension, output type (decoded images compared), in-process history "
             "(0-3 other programs - failing ones included - assembled first in the same process through naken_asm's main(); assemble_code() "
             "called repeatedly on one UtilContext), plain repetition.  Oracle: byte equality of the output file (S0 header masked when the "
-            "clock differs) / decoded image / exit status with R0.  Distinct = distinct seam-event hash; non-trivial = the perturbed execution "
+            "clock differs) / decoded image / exit status with R0; and, through hook H2 of /repo, no byte in the written image of R0 that "
+            "only pass 1 produced (programs with .dw/.ifdef on later labels, data before the CPU directive, tall sources).  A fixed, "
+            "seed-independent part of the run indices sweeps every corpus instruction and table mnemonic with an operand naming a label "
+            "defined further down (3 contexts each) under that oracle.  Distinct = distinct seam-event hash; non-trivial = the perturbed execution "
             "shared a process with an earlier assembly, or ran under a different clock / memory fill / chunking than R0.")
     assumptions = ["pass-1 residue is a function of the source and is not perturbed from outside; what is perturbed is every byte the process did not write itself (heap, stack, fresh pages)",
                    "the listing is only required to exist when -l is given (its content is C18's subject)",
                    "cross-type comparison uses the C03 reference decoders with C03's zero-gap tolerance for contiguous formats"]
 
+    FW_ITEMS = None
+    FW_PER_RUN = 8
+    FW_CONTEXTS = [(0x0, ".db 1\n"), (0x100, ".db 1\n"), (0x8000, ".resb 300\n")]
+
+    @classmethod
+    def fw_items(cls):
+        """every corpus instruction with one of its literals replaced by a label that is defined further down, and every table
+        mnemonic with such a label as its operand, in three contexts (origin, distance to the label): the same list for every seed"""
+        if cls.FW_ITEMS is None:
+            import json, os
+            items = []
+            for cpu in sorted(progs.corpus()):
+                for l in progs.corpus()[cpu]:
+                    if ":" in l[0]:
+                        continue
+                    for m in NUM_RE.finditer(l[0]):
+                        items.append((cpu, l[0][:m.start()] + "fw_lab" + l[0][m.end():]))
+            mn = json.load(open(os.path.join(VERIF, "corpus", "mnemonics.json")))
+            for cpu in sorted(mn):
+                for m in mn[cpu]:
+                    items.append((cpu, "%s fw_lab" % m))
+            cls.FW_ITEMS = [(cpu, line, c) for cpu, line in items for c in range(len(cls.FW_CONTEXTS))]
+        return cls.FW_ITEMS
+
+    def directed(self):
+        return len(DIMS) * 3 + (len(self.fw_items()) + self.FW_PER_RUN - 1) // self.FW_PER_RUN
+
     def plan(self, rng, index):
+        if len(DIMS) * 3 <= index < self.directed():
+            k = (index - len(DIMS) * 3) * self.FW_PER_RUN
+            return {"kind": "fwsweep", "items": [list(t) for t in self.fw_items()[k:k + self.FW_PER_RUN]]}
         prog = progs.gen_program(rng, nstmts=rng.range(2, 14))
+        if rng.chance(1, 3):
+            # forward references: an instruction (or .dw / .ifdef) naming a label that is defined further down - pass 1 has to
+            # guess its size, pass 2 knows it; nothing of the guess may survive into the file
+            w = "%x" % rng.below(1 << 20)
+            lines = [l[0] for l in progs.corpus().get(prog["cpu"], []) if NUM_RE.search(l[0]) and ":" not in l[0]]
+            # (instructions naming a later label are swept exhaustively and seed-independently, see fw_items)
+            kind = rng.pick(["dw", "ifdef"])
+            prog["fw_kind"] = kind
+            for _ in range(rng.range(1, 3)):
+                if kind == "instruction":
+                    line = rng.pick(lines)
+                    m = list(NUM_RE.finditer(line))
+                    m = m[rng.below(len(m))]
+                    stmt = ["  " + line[:m.start()] + "fw_%s" % w + line[m.end():]]
+                elif kind == "dw":
+                    stmt = [".dw fw_%s" % w]
+                else:
+                    stmt = [".ifdef fw_%s" % w, ".db 1", ".else", ".db 2, 3, 4", ".endif"]
+                prog["stmts"].insert(rng.range(1, len(prog["stmts"])), stmt)
+            for _ in range(rng.below(3)):
+                prog["stmts"].append([".db %d" % rng.below(256)])
+            prog["stmts"].append(["fw_%s:" % w])
+            prog["stmts"].append([".db 9"])
+        if rng.chance(1, 8) and not prog.get("fw_kind"):
+            # data placed before the CPU is selected (the default CPU's address units apply there, in both passes)
+            prog["stmts"][0:0] = [[".org 0x%x" % rng.pick([0x10, 0x100, 0x1000])], [".db %d, %d" % (rng.below(256), rng.below(256))]]
+            prog["cpu_late"] = True
         typ = rng.pick(TYPES)
         perts = []
         n = rng.range(4, 10)
@@ -91,7 +153,33 @@ class C13(Engine):
             pad = rng.pick([65535, 65535, 65535, 32767, 131071]) - rng.range(2, nlines)
         return {"prog": prog, "type": typ, "perts": perts, "pad_lines": pad}
 
+    def run_fwsweep(self, ex, plan):
+        res = RunResult()
+        digests = []
+        for cpu, line, c in plan["items"]:
+            org, tail = self.FW_CONTEXTS[c]
+            src = ".%s\n.org 0x%x\n  %s\n%sfw_lab:\n.db 9\n" % (cpu, org, line, tail)
+            o = ex.call(build_request(MODE_ASM, ["naken_asm", "-type", "bin", "-o", "out.bin", "a.asm"], {"/sim/w/a.asm": src.encode()},
+                                      env={"event_ceiling": 2000000}, cpu_ms=8000))
+            res.absorb(o)
+            digests.append(o.digest())
+            if o.kind() != "exit":
+                res.probe("fwsweep_abnormal_termination_left_to_C16")
+                continue
+            if o.status != 0:
+                res.probe("fwsweep_rejected")
+                continue
+            res.probe("fwsweep_accepted")
+            res.nontrivial = True
+            if o.counters[-3]:
+                res.viol("pass1-residue:image-holds-bytes-pass-2-never-wrote:instruction-naming-a-label-defined-later:%s" % cpu,
+                         nbytes=o.counters[-3], first="0x%x" % o.counters[-2], src=src)
+        res.digest = plan_hash(digests)
+        return res
+
     def run(self, ex, plan):
+        if plan.get("kind") == "fwsweep":
+            return self.run_fwsweep(ex, plan)
         res = RunResult()
         prog = plan["prog"]
         typ = plan["type"]
@@ -130,6 +218,17 @@ class C13(Engine):
             res.probe("reference_rejected")
         else:
             res.probe("reference_accepted")
+            stale, first = r0.counters[-3], r0.counters[-2]
+            if stale:
+                # hook H2: bytes of the written image that were last written by pass 1 - the file carries something pass 2
+                # never produced (what the statement calls contents of memory left by a previous pass)
+                fk = prog.get("fw_kind")
+                what = {"instruction": "instruction-naming-a-label-defined-later:%s" % prog["cpu"], "dw": "dw-naming-a-label-defined-later",
+                        "ifdef": "ifdef-on-a-label-defined-later", None: "no-forward-reference:%s" % prog["cpu"]}[fk]
+                res.viol("pass1-residue:image-holds-bytes-pass-2-never-wrote:%s" % what, nbytes=stale, first="0x%x" % first,
+                         src=progs.render(prog)[:700])
+            else:
+                res.probe("no_pass1_residue")
         api_ref = None
         api_mask = None
 
@@ -336,6 +435,11 @@ class C13(Engine):
         res.probe("type_pair_compared")
 
     def shrink(self, plan):
+        if plan.get("kind") == "fwsweep":
+            for it in plan["items"]:
+                if len(plan["items"]) > 1:
+                    yield {"kind": "fwsweep", "items": [it]}
+            return
         for i in range(len(plan["perts"])):
             if len(plan["perts"]) > 1:
                 c = copy.deepcopy(plan)
